@@ -555,7 +555,7 @@ func UnmarshalVectorYAML(value *yaml.Node) (*GeneralizedType, error) {
 		case "length":
 			var length big.Int
 			if err := length.UnmarshalText([]byte(v.Value)); err != nil {
-				return nil, err
+				return nil, parseError(v, "vector length must be an integer")
 			}
 			if length.Sign() < 0 {
 				return nil, parseError(v, "vector length cannot be negative")
@@ -909,7 +909,7 @@ func (dimension *ArrayDimension) UnmarshalYAML(value *yaml.Node) error {
 	if value.Tag == "!!int" {
 		var length big.Int
 		if err := length.UnmarshalText([]byte(value.Value)); err != nil {
-			return err
+			return parseError(value, "array dimension length must be an integer")
 		}
 		if length.Sign() < 0 {
 			return parseError(value, "array dimension length cannot be negative")
